@@ -310,6 +310,19 @@ Theorem c07_search_elif_refuted :
   Inv ascii_fold st_named ∧ search_spec ascii_fold [97]%N st_named 1 ∧ 1 ∉ (search_sh ascii_fold search_shape_elif [97]%N st_named).1.
 Proof. exact search_elif_refuted. Qed.
 
+(** Round 5, seeded fault c07_5 ([ents = self.by_target.get(name) or self.by_class.get(name); if ents: yield from ents]):
+    the search programs now have plain lookups ([PYieldGetTarget] / [PYieldGetClass]: nothing is inserted) and
+    non-emptiness tests ([CNeTarget] / [CNeClass]), so the `or` form is a program with a meaning.  It fails the
+    obligation about the exact branch, and when an entity is named like another one's class the search for that class
+    misses the entity of that class; two plain lookups one after the other pass (and find it). *)
+Theorem c07_search_or_refuted :
+  search_shape_ok search_shape_or = false ∧ search_shape_ok search_shape_two_gets = true ∧
+  let st_named := run ascii_fold [CreateEnt [97]%N []; CreateEnt [98]%N [(tn, [65]%N)]] init in
+  Inv ascii_fold st_named ∧ search_spec ascii_fold [97]%N st_named 1 ∧
+  1 ∉ (search_sh ascii_fold search_shape_or [97]%N st_named).1 ∧
+  1 ∈ (search_sh ascii_fold search_shape_two_gets [97]%N st_named).1.
+Proof. exact search_or_refuted. Qed.
+
 (** Round 3: today's maintenance program and add_ents pass their obligations; the shapes of seeded faults c07_3
     (rejected re-class of the worldspawn reverted by a direct store: ValueError is raised, the keyvalue is back,
     the worldspawn is gone from by_class) and c07_4 (add_ents iterates its argument twice: with a generator the
@@ -329,6 +342,20 @@ Theorem c07_add_ents_iterated_twice_refuted :
   Inv ascii_fold st0 ∧ ents (ae_run ascii_fold add_ents_twice [1] true st0) = [1] ∧
   ¬ Inv ascii_fold (ae_run ascii_fold add_ents_twice [1] true st0).
 Proof. exact add_ents_twice_refuted. Qed.
+
+(** Round 5, seeded fault c07_7: membership in the map read from a flag cached on the entity object ([self._in_map],
+    kept by add_ent / remove_ent but not by add_ents) instead of the scan [self in self.map.entities].  Such a flag
+    is state the model does not have: the translator emits the condition [MCCached], which no fact decides; the state
+    census [prog_stateless] and the path obligations of both indexed keys fail, and for the value the flag has after
+    add_ents a re-classed entity is in no class set. *)
+Theorem c07_setitem_cached_membership_flag_refuted :
+  prog_stateless maint_today = true ∧ prog_stateless maint_cached_flag = false ∧
+  maint_classname_ok maint_cached_flag = false ∧ maint_targetname_ok maint_cached_flag = false ∧
+  maint_other_ok maint_cached_flag = true ∧
+  let st0 := run ascii_fold [NewEnt [(cn, [97]%N)]; AddEnts [1]] init in
+  let r := set_item_pg ascii_fold setitem_shape_today maint_cached_flag 2 1 cn [98]%N st0 in
+  Inv ascii_fold st0 ∧ r.2 = 0 ∧ ents r.1 = [1] ∧ keys_of r.1 1 = [(cn, [98]%N)] ∧ ¬ Inv ascii_fold r.1.
+Proof. exact maint_cached_flag_refuted. Qed.
 
 (** _remove_copyset as written (round 3): every shape of the helper that passes the four named obligations (the set is
     found without raising and a missing set means nothing to do; the entity is discarded, not removed; the other
@@ -388,6 +415,12 @@ Theorem c07_remove_ent_variants_refuted :
    remove_still_listed_stays_indexed remove_ent_and_guard = false ∧
    ¬ Inv ascii_fold (v_run ascii_fold remove_ent_and_guard 0 init)).
 Proof. exact listops_refutations. Qed.
+
+Theorem c07_remove_ent_cached_flag_refuted :
+  remove_worldspawn_stays_indexed remove_ent_cached_flag = false ∧
+  remove_still_listed_stays_indexed remove_ent_cached_flag = false ∧
+  remove_unlists_and_unindexes remove_ent_cached_flag = false.
+Proof. exact remove_cached_flag_refuted. Qed.
 
 (** Entity.clear: today's step list passes; without `del self['targetname']` before the dict is emptied the entity
     keeps its old name in by_target (computed witness on a reachable state). *)
@@ -480,6 +513,34 @@ Qed.
 Theorem c07_table_fold_idem : ∀ tab, tab_non_ascii tab = true → tab_closed tab = true →
   ∀ s, table_fold tab (table_fold tab s) = table_fold tab s.
 Proof. exact table_fold_idem. Qed.
+(** Round 5 (consolidation): the whole property with hypotheses on GENERATED objects only.  For every casefold table [tab]
+    (computed from CPython for the strings of a run), every census list and every record of programs read off vmf.py:
+    four booleans — [tab_non_ascii], [tab_closed], [census_covered], [programs_ok], each evaluated by the kernel on every
+    run — give both conclusions of [c07_property] for the folding [table_fold tab]; all seven hypotheses about the
+    folding are discharged by [c07_table_fold_ok] / [c07_table_fold_idem].  What remains outside: the domain predicates
+    [fn_dom] / [ops_dom] (operations refer to existing objects of this map; add_ent is not given the worldspawn), and
+    that [table_fold tab] is str.casefold on the strings used (checked against CPython per batch). *)
+Theorem c07_property_generated_only : ∀ tab (census : list string) (P : programs),
+  tab_non_ascii tab = true → tab_closed tab = true → census_covered census = true → programs_ok P = true →
+  let fold := table_fold tab in
+  (∀ s, s ∈ census → ∃ f, fname_of s = Some f ∧
+     ∀ a st, fn_dom f a st → fn_w fold P f a st = fn_model fold f a st ∧ (Inv fold st → Inv fold (fn_w fold P f a st).1)) ∧
+  (∀ ops, ops_dom fold ops (init_w fold P) →
+     let st := run_w fold P ops (init_w fold P) in
+     Inv fold st ∧
+     (∀ k e, e ∈ ix_get (by_class st) k ↔ present st e ∧ cls_of fold st e = k) ∧
+     (∀ k e, e ∈ ix_get (by_target st) k ↔ present st e ∧ tgt_of fold st e = k) ∧
+     (∀ name e, e ∈ (search_sh fold (pg_search P) name st).1 ↔ search_spec fold name st e) ∧
+     cls_of fold st (spawn st) = ws ∧ spawn st ∈ ix_get (by_class st) ws).
+Proof.
+  intros tab census P Ht Hc Hcen HP. destruct (c07_table_fold_ok tab Ht) as (H1 & H2 & H3 & H4 & H5 & H6).
+  exact (c07_property (table_fold tab) H1 H2 H3 H4 (c07_table_fold_idem tab Ht Hc) H5 H6 census P Hcen HP).
+Qed.
+Example c07_property_generated_only_today :
+  tab_non_ascii tab_example = true ∧ tab_closed tab_example = true ∧
+  census_covered census_today = true ∧ programs_ok programs_today = true.
+Proof. repeat split; reflexivity. Qed.
+
 Example c07_table_fold_example : tab_non_ascii tab_example = true ∧ tab_closed tab_example = true ∧
   tab_closed [(7838, [223]); (223, [115; 115])]%N = false ∧ table_fold tab_example [83; 223; 304]%N = [115; 115; 115; 105; 775]%N.
 Proof. exact tab_example_ok. Qed.
